@@ -815,6 +815,20 @@ func (e *Env) call(n ECall) TVal {
 		vc.declareFun(qt, sorts, SBool)
 		e.st.assume(app(qt, as...))
 		return TVal{T: Term{"true", SBool}}
+	case "anyof":
+		// the interface value holding x (boxed with x's static Go type)
+		if !argc(1) {
+			return TVal{}
+		}
+		a := e.tr(n.Args[0])
+		if a.Ty == nil {
+			return e.errf("anyof of a value without Go type")
+		}
+		if a.T.Sort == SAny {
+			return a
+		}
+		c := vc.sorts.AnyCtor(a.Ty)
+		return TVal{T: Term{app(c.name, a.T.S), SAny}}
 	case "closed":
 		if !argc(1) {
 			return TVal{}
